@@ -179,7 +179,7 @@ PROPS = {
                 "ok / raising; non-trivial = distinct (kind, handler, line sequence)",
     },
     "C20": {
-        "lean": ["AriVerif.Props.C20", "AriVerif.Props.SkelReader", "AriVerif.Props.SkelLifecycle", "AriVerif.Conc.MetaClose"],
+        "lean": ["AriVerif.Props.C20", "AriVerif.Props.SkelReader", "AriVerif.Props.SkelLifecycle", "AriVerif.Conc.MetaClose", "AriVerif.Conc.MetaFault"],
         "gen": ["Skeleton"],
         "streams": [s_fault.stream, s_dispatch.stream, s_conc.meta_stream(["C20"], "meta-cosim-close")],
         "trusted": [KERNEL, HARNESS, "the scheduler shim (harness/shim.py): Lock/RLock, Queue, Event, Thread, ThreadPoolExecutor, scripted socket with fault injection, virtual clock",
